@@ -12,10 +12,16 @@
     block <raw>   -> <err:none|tooShort|badCount|txFailed> <txCount> <weight> <ntx> {<hash>:<wtxid>:<size>:<nowitsize>}*
     merkle <raw>  -> <MerkleRootMatch 0|1> <GetMerkle root|none> <mutated 0|1>     (after NewBlock + BuildTxList)
     alloc <sizeof Tx> <sizeof TxIn> <sizeof TxOut> <raw> -> <bytes requested from the allocator by NewTx(raw)>
+    obj <data> {u:<raw> | b0 | b1 | c | d:<raw>}*   one btc.Block object through a history (Model/WireBlockObj.lean):
+                  NewBlock(data), then UpdateContent / BuildTxListExt(false|true) / Clean / the client's reset
+                  -> none (NewBlock refused: no object)
+                   | one segment per call, NewBlock first:
+                     <outcome>/<TxCount>/<TxOffset>/<BlockWeight>/<TotalInputs>/<nil | n{,<hash>:<wtxid>:<size>:<nowitsize>}*>
 -/
 import GocoinV.Model.Wire
 import GocoinV.Model.WireAlloc
 import GocoinV.Model.WireBlock
+import GocoinV.Model.WireBlockObj
 import GocoinV.Base.Sha256
 import GocoinV.Base.Proto
 open GocoinV GocoinV.Wire
@@ -105,6 +111,29 @@ def merkleReply (b : Bytes) : String :=
   | none => s!"{m} none 0"
   | some (root, mutated) => s!"{m} {Hex.encode root} {if mutated then "1" else "0"}"
 
+def outcomeStr : Outcome → String
+  | .ok => "ok" | .tooShort => "tooShort" | .badCount => "badCount" | .txFailed => "txFailed" | .panic => "panic"
+
+def objSeg (p : BlockObj × Outcome) : String :=
+  let txs := match p.1.txs with
+    | none => "nil"
+    | some l => ",".intercalate (toString l.length ::
+        l.map fun (t : BlockTx) => s!"{Hex.encode t.ids.hash}:{Hex.encode t.ids.wtxid}:{t.ids.size}:{t.ids.noWitSize}")
+  s!"{outcomeStr p.2}/{p.1.txCount}/{p.1.txOffset}/{p.1.weight}/{p.1.totalInputs}/{txs}"
+
+def parseOp (t : String) : Option Op :=
+  if t == "b0" then some (.build false)
+  else if t == "b1" then some (.build true)
+  else if t == "c" then some .clean
+  else if t.startsWith "u:" then (Hex.decode (t.drop 2).toString).map .update
+  else if t.startsWith "d:" then (Hex.decode (t.drop 2).toString).map .discard
+  else none
+
+def objReply (data : Bytes) (ops : List Op) : String :=
+  match newBlock data with
+  | none => "none"
+  | some p => " ".intercalate ((p :: trace sha256d ops p.1).map objSeg)
+
 def step (_ : Unit) (toks : List String) : Unit × String :=
   let bad := ((), "bad-op")
   match toks with
@@ -128,6 +157,9 @@ def step (_ : Unit) (toks : List String) : Unit × String :=
   | ["merkle", b] => match Hex.decode b with
     | some b => ((), merkleReply b)
     | none => bad
+  | "obj" :: d :: ts => match Hex.decode d, ts.mapM parseOp with
+    | some d, some ops => ((), objReply d ops)
+    | _, _ => bad
   | ["alloc", kt, ki, ko, b] => match kt.toNat?, ki.toNat?, ko.toNat?, Hex.decode b with
     | some kt, some ki, some ko, some b => ((), toString (allocTx { tx := kt, txIn := ki, txOut := ko } b))
     | _, _, _, _ => bad
